@@ -36,16 +36,39 @@ from . import c02
 ID = "C03"
 MOD = "harness.props.c03"
 T = "MetadorModel.C03."
+B = "MetadorModel.Bridge.FindFilesFns."
 LEAN = dict(
-    modules=["MetadorModel.Props.C03"],
+    modules=["MetadorModel.Props.C03", "MetadorModel.Bridge.FindFilesFnsName", "MetadorModel.Bridge.FindFilesFnsValid",
+             "MetadorModel.Bridge.FindFilesFns", "MetadorModel.Bridge.FindFilesFnsInit"],
     theorems=[T + n for n in [
         "open_r_pure", "open_r_refuses_patching", "open_rplus_continues", "open_rplus_new_patch",
         "open_a_creates_when_absent", "open_w_replaces", "open_x_refuses_existing", "open_x_creates_when_absent",
         "open_missing_r_fails", "sortByIdx_perm_invariant", "open_accepts_any_order", "open_yields_coherent",
         "reopen_same_view", "coherent_along_histories", "reopen_same_view_history", "discard_returns_to_commit",
-        "findFiles_exact", "findFiles_disjoint", "ub_text_roundtrip", "ub_text_roundtrip_inplace", "probe_alone_truncates"]],
+        "findFiles_exact", "findFiles_disjoint", "ub_text_roundtrip", "ub_text_roundtrip_inplace", "probe_alone_truncates"]]
+    # translated tie (Gen/FindFilesFns.lean is regenerated from the source on every run, see translate_c03.py)
+    + [B + n for n in [
+        "gen_constants", "gen_is_valid_record_name", "gen_infer_name", "gen_find_files", "gen_find_files_interp_plain",
+        "gen_next_patch_filepath", "gen_createPatch_path", "gen_init"]],
     drivers=["drv_rec"],
 )
+
+
+def translate(ctx):
+    """regenerate Gen/FindFilesFns.lean from the current source (`_is_valid_record_name`, `_infer_name`,
+    `find_files`, `_next_patch_filepath`, the mode dispatch of `__init__`, `OpenMode`)"""
+    from .. import translate_c03
+    try:
+        # a function that cannot be translated is left out of the generated file (the others stay), then
+        # TranslateError is raised: only the bridge modules about that function fail to build
+        return translate_c03.write(lean)
+    except translate_c03.TranslateError:
+        raise
+    except Exception as e:  # noqa: BLE001
+        # leave no text of an earlier run (possibly of another tree) behind
+        translate_c03.write_stub(lean, "%s: %s" % (type(e).__name__, e))
+        raise
+
 
 hx = c02.hx
 MODES = ["r", "r+", "a", "w", "w-", "x"]
